@@ -18,7 +18,10 @@ run_one() { # kind id patch
   nr=""; [ $kind = mutant ] && nr=1   # must-fail runs skip the retry pass (any undischarged obligation counts)
   out=$(VERIF_NO_RETRY=$nr VERIF_REPO=$d/repo VERIF_OUT=$d/out VERIF_EVIDENCE_DIR=$d/ev engine/bin/govc check $id quick 2>&1)
   nviol=$(echo "$out" | grep -c '^VIOLATION')
+  nrepro=$(echo "$out" | grep '^VIOLATION' | grep -v 'bounded:' | grep -vc 'no-failing-input-found$')
   rm -rf $d
+  # <name>.reproduces beside a must-fail patch: the solver's model must also replay on the real code
+  if [ $kind = mutant ] && [ -f ${patch%.patch}.reproduces ] && [ $nrepro -eq 0 ]; then echo "MISS must-reproduce $id/$name: no violation was replayed on the real code"; return 1; fi
   if [ $kind = mutant ]; then
     if [ $nviol -gt 0 ]; then echo "ok   must-fail $id/$name ($nviol violations: $(echo "$out" | grep '^VIOLATION' | head -1 | sed 's/.*obligation=//' | cut -c1-90))"; else echo "MISS must-fail $id/$name: no violation reported"; return 1; fi
   else
